@@ -379,4 +379,29 @@ theorem collectToks_error_value (toks : List (Nat × Str)) (htf : TieFree toks) 
       · cases h; rfl
       · cases h
 
+/-! ### The executable forms are sound -/
+
+theorem malformed_of_B (toks : List (Nat × Str)) (h : malformedB toks = true) : Malformed toks := by
+  simp only [malformedB, Bool.or_eq_true, List.any_eq_true] at h
+  rcases h with ⟨p, hp, hr⟩ | ⟨L, _, hL⟩
+  · exact Or.inl ⟨p, hp, hr⟩
+  · refine Or.inr ⟨L, ?_⟩
+    simp only [unbalancedB, Bool.or_eq_true, List.any_eq_true, decide_eq_true_eq, bne_iff_ne] at hL
+    rcases hL with ⟨n, _, hn⟩ | hne
+    · exact Or.inl ⟨toks.take n, List.take_prefix n toks, hn⟩
+    · exact Or.inr hne
+
+theorem tieFree_of_B (toks : List (Nat × Str)) (h : tieFreeB toks = true) : TieFree toks := by
+  intro p hp q hq kp kq hkp hkq hline hlab hpa hqa hpb hqb
+  simp only [tieFreeB, List.all_eq_true] at h
+  have := h p hp q hq
+  simp only [hkp, hkq, hline, hlab, hpa, hqa, beq_self_eq_true, Bool.and_true, Bool.true_and,
+    Bool.or_eq_true, Bool.not_eq_true', Bool.and_eq_false_iff, bne_eq_false_iff_eq, beq_iff_eq] at this
+  rcases this with (h1 | h1) | h1
+  · exact absurd h1 hpb
+  · exact absurd h1 hqb
+  · constructor
+    · intro e; simpa [e] using h1
+    · intro e; simpa [e] using h1
+
 end Paroxy.Hints
